@@ -44,7 +44,7 @@ check("C08", "model_checking",
       "DESIGN.md §2.4, §3 C08", engine="engine/common (history enumeration)")
 check("C09", "model_checking",
       "exhaustive (pooled type x field x release path) obligations by reflection + explicit-state search over parse/hold/release histories up to depth 4/5 with snapshot and pointer-disjointness invariants",
-      "Every pooled type and release path found in pool.go at check time: every field filled, released, re-obtained (pointer identity asserted) and compared with a new object incl. backing arrays; all histories over 20 operations on 6 queries sharing pooled shapes: held trees/tokens/results never change, live trees share no pooled node, no node is put twice or pooled while live.",
+      "Every pooled type and release path found in pool.go at check time: every field filled, released, re-obtained (pointer identity asserted) and compared with a new object incl. backing arrays; all histories over 23 operations (parse / hold / release, error paths of parser and tokenizer, formatters, validators, linter, extractors, scanner, recovery, tokenizer borrow / return) on 6 queries sharing pooled shapes: held trees/tokens/results never change, live trees share no pooled node, no node is put twice or pooled while live.",
       "Trusted: reflection-based fill; GC disabled inside a history so the pools hand objects back deterministically; the cross-goroutine clause is C10's.",
       "DESIGN.md §2.4, §3 C09", engine="engine/common (history enumeration)")
 check("C10", "exploration",
@@ -59,7 +59,7 @@ check("C11", "fault_enumeration",
       "DESIGN.md §2.6, §3 C11", engine="engine/common + checks/c08/probe")
 check("C12", "exploration",
       "bounded exhaustive enumeration of semicolon-separated scripts over valid and corrupted segments and of token soup; differential oracle against strict parsing",
-      "All scripts of <=2 segments over 9 valid statements and all their failing corruptions, <=3 over the valid statements + 14 corruptions, <=5/6 over a 5-segment pool, with/without trailing semicolon, and every rejected proper prefix of every clause-option / DML / DDL statement of the model grammar before three kinds of follower and between neighbours: recovery terminates, reports an error iff strict parsing fails, returns exactly the strict trees of the well-formed segments in order, one error per malformed segment naming a token inside it (by token index and by reported column); all lexeme sequences of length <=3/4 over 24 lexemes for termination and the iff clause.",
+      "All scripts of <=2 segments over 9 valid statements and all their failing corruptions, <=3 over the valid statements + 14 corruptions, <=5/6 over a 5-segment pool, with/without trailing semicolon, and every rejected proper prefix of every clause-option / DML / DDL statement of the model grammar before three kinds of follower and between neighbours: recovery terminates, reports an error iff strict parsing fails, returns exactly the strict trees of the well-formed segments in order, one error per malformed segment naming a token inside it (by token index and by reported column); every single-token corruption inside every representative expression before a follower and between neighbours; all lexeme sequences of length <=3/4 over 24 lexemes for termination and the iff clause.",
       "Trusted: a segment is well-formed iff gosqlx.Parse accepts it alone; token counting self-checked at run time.",
       "DESIGN.md §3 C12")
 check("C14", "exploration",
